@@ -1325,6 +1325,46 @@ fn c10(cx: &mut Ctx<'_, '_>) {
 
 fn c18(cx: &mut Ctx<'_, '_>) {
     let an = cx.an;
+    // "likewise CLI --concurrency overrides and --fail-fast adds to the builder settings"
+    {
+        let c = &an.case.cfg;
+        let series = in_flight_series(&an.out.evs);
+        let peak = series.iter().copied().max().unwrap_or(0);
+        let both_differ = c.cli_concurrency.is_some() && c.b_concurrency.is_some_and(|b| b != c.cli_concurrency);
+        if let Some(k) = c.limit() {
+            if peak > k as i64 {
+                cx.viol("C18", "merge:concurrency-exceeded", format!("{peak} attempts in flight; --concurrency {:?} over max_concurrent_scenarios {:?} gives {k}", c.cli_concurrency, c.b_concurrency), json!(null));
+            }
+        }
+        // with everything available at the first dispatch the first batch fills min(limit, scenarios)
+        let any_serial = an.sc.values().any(|i| i.serial);
+        if !an.case.is_lazy() && !any_serial && an.out.end == End::Ended && c.cli_concurrency.is_some() {
+            let n = an.sc.len() as i64;
+            let want = c.limit().map_or(n, |k| (k as i64).min(n));
+            if peak < want {
+                cx.viol("C18", "merge:concurrency-not-from-cli", format!("at most {peak} attempts in flight although {n} scenarios were available at once and --concurrency {:?} (builder {:?}) allows {want}", c.cli_concurrency, c.b_concurrency), json!(null));
+            }
+        }
+        let expected_ff = c.cli_ff || c.b_ff;
+        let supplied: usize = an.sc.len();
+        let started: HashSet<u32> = an.attempts.iter().filter(|a| a.started.is_some()).map(|a| a.sc_uid).collect();
+        if an.out.end == End::Ended && an.pulled_items.len() == an.case.items.len() {
+            if !expected_ff && started.len() != supplied {
+                cx.viol("C18", "merge:fail-fast-without-being-set", format!("{} of {supplied} scenarios ran although neither --fail-fast nor fail_fast() is set", started.len()), json!(null));
+            }
+        }
+        if expected_ff && an.out.end == End::Ended {
+            if let (Some(t), Some(k)) = (an.first_final_failure, c.limit()) {
+                let late = an.out.evs[t + 1..].iter().filter(|r| matches!(r.ev, Ev::Sc(ScEv::Started))).count();
+                if late >= k {
+                    cx.viol("C18", "merge:fail-fast-ignored", format!("fail-fast set (cli {}, builder {}) but {late} attempts started after the first final failure", c.cli_ff, c.b_ff), json!(null));
+                }
+            }
+        }
+        if both_differ || (c.cli_ff != c.b_ff) {
+            cx.t.nontrivial("C18", fnv(&format!("merge|{:?}|{:?}|{}|{}", c.cli_concurrency, c.b_concurrency, c.cli_ff, c.b_ff)));
+        }
+    }
     for (uid, ais) in &an.by_sc {
         let Some(info) = an.sc.get(uid) else { continue };
         let first = &an.attempts[ais[0]];
